@@ -62,7 +62,7 @@ pub fn totality_texts(tier: Tier) -> Vec<(String, String)> {
             forms.push(format!("{}{}", l, e));
         }
     }
-    for h in ["0x0", "0x00", "0x10", "0x8000000000000000000000000000000000000000000000000000000000000000", "0xffffffffffffffffffffffffffffffffffffffffffffffffffffffffffffffffff"] {
+    for h in ["0x0", "0x00", "0x10", "0x00_00", "0x0000_0000", "0xEeeeeEeeeEeEeeEeEeEeeEEEeeeeEeeeeeeeEEeE", "0x100000000000000000000000000000000", "0xffffffffffffffffffffffffffffffff", "0x8000000000000000000000000000000000000000000000000000000000000000", "0xffffffffffffffffffffffffffffffffffffffffffffffffffffffffffffffffff"] {
         forms.push(h.to_string());
     }
     for r in ["0.5", "2.0", "4.0e1", ".5e1", "1.5e-1", "8.00"] {
@@ -217,8 +217,8 @@ pub fn totality_texts(tier: Tier) -> Vec<(String, String)> {
     }
     // ---- counts
     let counts: Vec<usize> = match tier {
-        Tier::Quick => vec![0, 1, 2, 3, 127, 128, 255, 256, 257, 300],
-        Tier::Thorough => (0..=300).collect(),
+        Tier::Quick => vec![0, 1, 2, 3, 127, 128, 255, 256, 257, 300, 1000],
+        Tier::Thorough => (0..=300).chain([511, 512, 513, 1000, 1023, 1024, 1025]).collect(),
     };
     for &k in &counts {
         let fns: String = (0..k).map(|i| format!("  function f{}() public {{}}\n", i)).collect();
@@ -229,11 +229,16 @@ pub fn totality_texts(tier: Tier) -> Vec<(String, String)> {
         v.push((format!("count:contracts:{}", k), format!("pragma solidity 0.8.19;\n{}", cs)));
         let vars: String = (0..k).map(|i| format!("  uint{} v{};\n", 8 * (1 + i % 32), i)).collect();
         v.push((format!("count:statevars:{}", k), format!("pragma solidity 0.8.19;\ncontract C {{\n{}}}\nstruct S {{\n{}}}\n", vars, vars)));
+        let wide: String = (0..k).map(|i| format!("  uint256 w{};\n", i)).collect();
+        v.push((format!("count:uint256-statevars:{}", k), format!("pragma solidity 0.8.19;\ncontract C {{\n{}}}\nstruct S {{\n{}}}\n", wide, wide)));
         let stmts: String = (0..k).map(|i| format!("    x = x + {};\n", i)).collect();
         v.push((format!("count:statements:{}", k), format!("pragma solidity 0.8.19;\ncontract C {{\n  uint256 x;\n  function f() public {{\n{}  }}\n}}\n", stmts)));
         let args: Vec<String> = (0..k).map(|i| format!("a{}", i)).collect();
         v.push((format!("count:callargs:{}", k), wrap_f(&format!("require({})", args.join(", ")))));
-        v.push((format!("count:callargs-and:{}", k), wrap_f(&format!("require({})", if args.is_empty() { String::new() } else { args.join(" && ") }))));
+        if k <= 60 {
+            // a chain of k operators is nested k deep: the property bounds nesting depth by 64
+            v.push((format!("count:callargs-and:{}", k), wrap_f(&format!("require({})", if args.is_empty() { String::new() } else { args.join(" && ") }))));
+        }
         let prs: String = (0..k).map(|_| "pragma solidity ^0.8.0;\n".to_string()).collect();
         v.push((format!("count:pragmas:{}", k), format!("{}contract C {{}}\n", prs)));
         let params: Vec<String> = (0..k).map(|i| format!("bytes memory p{}", i)).collect();
@@ -284,7 +289,7 @@ fn sweep(texts: &[(String, String)], detectors: &[Detector], profile: &str, sequ
             return (vs, 0u64, outcomes, false);
         }
         for d in detectors {
-            if sequential {
+            if sequential || std::env::var("MC_SEQUENTIAL").is_ok() {
                 eprintln!("BEGIN {} {}", d.name, label);
             }
             calls += 1;
@@ -303,6 +308,7 @@ fn sweep(texts: &[(String, String)], detectors: &[Detector], profile: &str, sequ
         }
         (vs, calls, outcomes, true)
     };
+    let sequential = sequential || std::env::var("MC_SEQUENTIAL").is_ok();
     let res: Vec<_> = if sequential { (0..texts.len()).map(one).collect() } else { util::par_map(texts.len(), one) };
     let mut vs = Vec::new();
     let mut calls = 0;
@@ -438,8 +444,15 @@ pub fn run(tier: Tier) -> i32 {
             }
         };
         if !out.status.success() {
-            // abnormal end: the last BEGIN marker names the detector and program
-            let err = String::from_utf8_lossy(&out.stderr);
+            // abnormal end: the last BEGIN marker names the detector and program; if the abort happened in
+            // the parallel phase (no marker), run the child again sequentially to locate it
+            let mut err = String::from_utf8_lossy(&out.stderr).to_string();
+            if !err.lines().any(|l| l.starts_with("BEGIN ")) {
+                let path = if name.starts_with("ovf") { std::env::var("MC_OVF_BIN").unwrap_or_default() } else { std::env::current_exe().unwrap().to_string_lossy().to_string() };
+                if let Ok(o2) = std::process::Command::new(&path).args(["C04-child", tier_s, &name]).env("MC_SEQUENTIAL", "1").output() {
+                    err = String::from_utf8_lossy(&o2.stderr).to_string();
+                }
+            }
             let last = err.lines().filter(|l| l.starts_with("BEGIN ")).last().unwrap_or("").to_string();
             let mut parts = last.splitn(3, ' ');
             let _ = parts.next();
